@@ -106,6 +106,7 @@ class Ctx:
         self.selftests = []
         self.assumptions = []
         self.mc_runs = []
+        self.claim_exhaustive = None   # None: true iff a finite sub-space was enumerated completely (exhaustive_subspaces); harnesses whose lists only name grid dimensions set False
 
     # ---- bookkeeping -------------------------------------------------------------------------
     def big(self): return self.tier == 'thorough'
@@ -227,7 +228,7 @@ class Ctx:
                    traces_validated_against_impl=self.traces,
                    samples=self.samples or ['(no sample recorded)'],
                    evaluations=self.evaluations, distinct_nontrivial=len(self.nontrivial), rule=rule,
-                   exhaustive=bool(self.exhaustive_subspaces), exhaustive_subspaces=self.exhaustive_subspaces,
+                   exhaustive=(bool(self.exhaustive_subspaces) if self.claim_exhaustive is None else bool(self.claim_exhaustive)), exhaustive_subspaces=self.exhaustive_subspaces,
                    model_checking_runs=self.mc_runs, binding_selftest=self.selftests,
                    known_findings_matched=self.known, skipped_components=self.skipped,
                    tlc_cmds=self.tlc_cmds[:40], notes=self.notes,
